@@ -55,4 +55,11 @@ struct uref *make_block(const uint8_t *data, size_t size, int nseg);
 long uref_uid(struct uref *u);
 void ret(int err);
 int provide(struct urequest *r, const char *who);
+/* flow tags (see pipe_driver.c) */
+extern bool pd_fltag;
+const char *pd_fl_of(struct uref *fd);
+void pd_fl_note(const char *name, struct uref *fd);
+void pd_fl_tag(const char *name, struct uref *u);
+bool pd_fl_size(const char *name, unsigned *h, unsigned *v);
+void pd_fl_reset(void);
 #endif
